@@ -42,7 +42,7 @@ define LIBRULE
 $$(OBJ_$(1))/lib/%.o: $$(LIB_SRCDIR)/%.c tools/redefine.syms tools/redefine.T.syms $$(BUILD)/lib.mk
 	@mkdir -p $$(dir $$@)
 	@echo "  CC $$(notdir $$<) [$(1)]"; $$(CC) $$(LIBFLAGS) $$(FLAGS_$(1)) $$(if $$(filter pcryptohash-gost3411.c,$$(notdir $$<)),-fno-var-tracking-assignments) -MMD -MP -MF $$(@:.o=.d) -MT $$@ -c $$< -o $$(@:.o=.raw.o)
-	@objcopy --redefine-syms=tools/redefine.syms $$(if $$(filter T,$(1)),--redefine-syms=tools/redefine.T.syms) $$(@:.o=.raw.o) $$@
+	@objcopy --redefine-syms=tools/redefine.syms $$(if $$(filter T,$(1)),--redefine-syms=tools/redefine.T.syms) --rename-section .data=plib_data --rename-section .bss=plib_bss --rename-section .data.rel.local=plib_datarel $$(@:.o=.raw.o) $$@
 $$(OBJ_$(1))/sim/%.o: sim/%.cpp $$(BUILD)/lib.mk
 	@mkdir -p $$(dir $$@)
 	@echo "  CXX $$(notdir $$<) [$(1)]"; $$(CXX) $$(SIMFLAGS) -DSIM_FLAVOUR_$(1) $$(if $$(filter A,$(1)),-DSIM_ASAN) -MMD -MP -c $$< -o $$@
